@@ -242,7 +242,75 @@ def traced_cases(tier):
     return out
 
 
-SECTIONS = {"eos": (cases, case_eos), "traced": (traced_cases, case_traced)}
+def case_template(c: dict) -> dict:
+    """The closed-form template solver on equations of state that ARE of template form (incl. the bag model and other
+    unit systems, i.e. enthalpy at Tn different from 1): its matching and its boundary constants against the same
+    analytic-EOS fluxes. For a template EOS the template model is exact, so the junction conditions hold to rounding
+    (v+ is the only numerically determined quantity and T+, T- follow from it through the junction relations)."""
+    import WallGo
+
+    logging.disable(logging.CRITICAL)
+    r = Rel(c["id"])
+    eos, Tn = HL.build_eos(c)
+    adm = HL.admissible(eos, Tn)
+    if adm:
+        return r.result(inadmissible=adm)
+    tol = HL.TIGHT if c["tol"] == "tight" else HL.DEFAULT
+    th = eos.thermo(Tn)
+    try:
+        tm = WallGo.HydrodynamicsTemplateModel(th, rtol=tol["rtol"], atol=tol["atol"])
+    except Exception as ex:
+        return r.result(inadmissible="template model could not be constructed: " + repr(ex)[:120])
+    vJ, vmin = float(tm.vJ), max(float(tm.vMin), 2e-3)
+    cb = float(np.sqrt(eos.csq("b", Tn)))
+    pts = [("v0.05", 0.05), ("v0.1", 0.1), ("v0.3", 0.3), ("cb-", cb - 1e-3), ("cb+", cb + 1e-3), ("hyb-mid", 0.5 * (cb + vJ)), ("vJ-", vJ - 1e-4),
+           ("vJ+", vJ + 1e-4), ("det-mid", 0.5 * (vJ + 1)), ("v0.9", 0.9), ("v0.99", 0.99)]
+    nret = 0
+    for name, v in pts:
+        if not (vmin <= v < 1):
+            continue
+        try:
+            got = tm.findMatching(v)
+            c1, c2, Tp2, Tm2, vmid = tm.findHydroBoundaries(v)
+        except Exception as ex:
+            r.tag("template-raised")
+            continue
+        if got[0] is None or not all(np.isfinite([float(x) for x in got])):
+            r.tag("template-none")
+            continue
+        vp, vm, Tp, Tm = (float(x) for x in got)
+        nret += 1
+        branch = "detonation" if v > vJ else ("hybrid" if v > cb else "deflagration")
+        r.tag("template-" + branch)
+        res = _resid_vec(eos, vp, vm, Tp, Tm)
+        S = sensitivity(eos, branch, v, vp, vm, Tp, Tm)
+        t = 1e4 * np.finfo(float).eps * (1 + S)  # rounding x conditioning
+        extra = dict(vw=v, vp=vp, vm=vm, Tp=Tp / Tn, Tm=Tm / Tn, branch=branch)
+        r.close(f"{name}:energy-flux", res[0], 0.0, t, **extra)
+        r.close(f"{name}:momentum-flux", res[1], 0.0, t, **extra)
+        e1, e2, m1, m2 = (float(x) for x in OH.junction_residuals(eos, vp, vm, Tp, Tm)[2])
+        r.close(f"{name}:c1=-energyflux(+)", c1, -e1, t * abs(e1))
+        r.close(f"{name}:c1=-energyflux(-)", c1, -e2, t * abs(e1))
+        msc = abs(e1 * vp) + abs(eos.p("s", Tp)) + abs(e2 * vm) + abs(eos.p("b", Tm))
+        r.close(f"{name}:c2=momentumflux(+)", c2, m1, t * msc)
+        r.close(f"{name}:c2=momentumflux(-)", c2, m2, t * msc)
+        r.close(f"{name}:velocityMid", vmid, -0.5 * (vp + vm), 4 * np.finfo(float).eps)
+        r.close(f"{name}:boundaries-Tp,Tm", [Tp2, Tm2], [Tp, Tm], 1e-12 * Tp)
+    return r.result(nontrivial=nret > 0)
+
+
+def template_cases(tier):
+    out = []
+    for c in HL.eos_lattice(tier, families=("bag", "template")):
+        for tol in ("tight", "default"):
+            d = dict(c)
+            d["tol"] = tol
+            d["id"] = c["id"] + ",tol=" + tol
+            out.append(d)
+    return out
+
+
+SECTIONS = {"eos": (cases, case_eos), "traced": (traced_cases, case_traced), "template": (template_cases, case_template)}
 
 
 def run(ctx) -> None:
